@@ -68,8 +68,23 @@ def main():
         if not nosuite:
             rcs, os_ = sh([sys.executable, os.path.join(VERIF, "tools", "baseline_check.py"), wt], wt, timeout=4000)
             res["suite"] = os_.strip().splitlines()[:8]
-            missing = [l for l in os_.splitlines() if "MISSING" in l and "event::TestTransitions" not in l]
-            suite_ok = len(missing) == 0
+            missing = [l.split("MISSING")[1].strip() for l in os_.splitlines() if "MISSING" in l and "event::TestTransitions" not in l]
+            # tests that fail only because several suites run in parallel (fixed TCP port in rpc TestServer): re-run alone
+            still = []
+            for t in missing:
+                pkg, test = t.split("::", 1)
+                rel = "./" + pkg.replace("github.com/Oneledger/protocol/", "")
+                ok1 = False
+                for _ in range(3):
+                    rct, _o = sh(["go", "test", "-vet=off", "-count=1", "-run", "^" + test.split("/")[0] + "$", rel], wt)
+                    if rct == 0:
+                        ok1 = True
+                        break
+                    time.sleep(3)
+                if not ok1:
+                    still.append(t)
+            res["suite_missing_after_serial_rerun"] = still
+            suite_ok = len(still) == 0
         res["confirmed"] = bool(rc0 == 0 and rc1 != 0 and build_ok and (suite_ok is not False))
         print(json.dumps(res, indent=1))
         if res["confirmed"]:
